@@ -107,13 +107,26 @@ def raw_worker(job):
         other = rigp.make_user(rigp.Cfg("v3", user=cfg.user, auth=au, priv=pr, auth_kt=kt, priv_kt=kt, auth_pw=b"another-pass", priv_pw=b"another-priv"), eng)
         creds = (u.name, u.get_auth_alg(), u.get_auth_key(), u.get_priv_alg(), u.get_priv_key())
         ocreds = (other.name, other.get_auth_alg(), other.get_auth_key(), other.get_priv_alg(), other.get_priv_key())
+        loc = rigp.make_user(rigp.Cfg("v3", user=cfg.user, auth=au, priv=pr, auth_kt="localized", priv_kt="localized", auth_pw=cfg.auth_pw, priv_pw=cfg.priv_pw), eng)
+        lcreds = (loc.name, loc.get_auth_alg(), loc.get_auth_key(), loc.get_priv_alg(), loc.get_priv_key())
         for order in job["orders"]:
             res["cases"] += 1
             box["reqs"] = []
+            expect_nokey = False
             try:
                 sock = SnmpV3ClientSocket("127.0.0.1:%d" % agent.port, b"", *creds, 0, 0, 0, 1_000_000_000)
                 judged_from = None
                 for step in order:
+                    if step == "localized_first":
+                        # keys installed BEFORE the engine id is known, in a form that does not depend on it: what the
+                        # socket learns later must not bring the constructor's credentials back
+                        sock.set_keys(*lcreds)
+                        judged_from = len(box["reqs"]) + 1     # from the request after the discovery exchange
+                        continue
+                    if step == "nokey_first":
+                        sock.set_keys(cfg.user, 0, b"", 0, b"")
+                        judged_from, expect_nokey = len(box["reqs"]) + 1, True
+                        continue
                     if step == "refresh":
                         sock.send_refresh()
                         sock.recv_refresh()
@@ -144,6 +157,10 @@ def raw_worker(job):
                 res["datagrams"] += 1
                 if not rq.ok:
                     res["bad"].append({"sig": "raw:strict", "msg": "[%s/%s/%s] history %s: datagram %d malformed: %s" % (au, pr, kt, order, k, rq.err)})
+                elif expect_nokey:
+                    if rq.m["flags"] & 1 or rq.m["usm"]["auth_params"]:
+                        res["bad"].append({"sig": "raw:nokey", "msg": "[%s/%s/%s] history %s: datagram %d carries auth flag %d and %d octets of msgAuthenticationParameters although the "
+                                           "keys were replaced by a user without keys" % (au, pr, kt, order, k, rq.m["flags"] & 1, len(rq.m["usm"]["auth_params"])), "datagram": rq.raw.hex()})
                 elif rq.m["usm"]["engine_id"] == eng and not (rq.m["flags"] & 1 and rq.mac_ok):
                     res["bad"].append({"sig": "raw:mac", "msg": "[%s/%s/%s] history %s: datagram %d names engine id %s with auth flag %d but its HMAC-96 does not verify "
                                        "under the user's key localized to that engine id" % (au, pr, kt, order, k, eng.hex(), rq.m["flags"] & 1), "datagram": rq.raw.hex()})
@@ -167,7 +184,8 @@ def main():
     # what key it should use is nobody's statement)
     combos = [(au, None, kt) for au in ("md5", "sha1") for kt in ("password", "master")]
     orders = [["refresh", "same", "get", "get"], ["same", "refresh", "same", "get"], ["refresh", "same", "same", "get"], ["refresh", "other", "same", "get"],
-              ["refresh", "get", "same", "get", "same", "get"], ["same", "same", "refresh", "same", "get", "get"]]
+              ["refresh", "get", "same", "get", "same", "get"], ["same", "same", "refresh", "same", "get", "get"],
+              ["localized_first", "refresh", "get", "get"], ["nokey_first", "refresh", "get", "get"]]
     rj = [{"seed": a.seed * 17 + i, "combos": combos[i::4], "orders": orders * (1 if a.tier == "quick" else 20)} for i in range(4)]
     outs = runner.run_workers("checks.c09", "raw_worker", rj, variant="rel", timeout=1200)
     raw = {"cases": 0, "datagrams": 0}
